@@ -17,7 +17,13 @@ Ev == Tr(tid)[l]
 InPlaceOps == {"add_measures", "tie_notes", "find_tuplets", "fill_rests", "use_musical_beat", "use_notated_beat",
                "add_object", "remove_object", "merge_parts_inplace"}
 
-Init == tid \in 1..Len(Batch) /\ l = 1 /\ fp = Batch[tid].fp0 /\ memo = <<>> /\ fail = {}
+(* A trace may start with results already observed (memo0: a sequence of [k, v]).  The harness uses this when it
+   resumes a trace behind an event that only left Segment objects on the argument (the recorded finding: "nothing else
+   changes"): what was observed before must still be observed afterwards, so a call that also rewrites the segments it
+   finds - and thereby changes what later unfoldings return - is not hidden behind that finding. *)
+Memo0(i) == LET m == Batch[i].memo0 IN
+            [k \in {m[j].k : j \in 1..Len(m)} |-> m[CHOOSE j \in 1..Len(m) : m[j].k = k].v]
+Init == tid \in 1..Len(Batch) /\ l = 1 /\ fp = Batch[tid].fp0 /\ memo = Memo0(tid) /\ fail = {}
 
 Observe == /\ Ev.op \notin InPlaceOps
            /\ fp' = fp                                   \* the specification: observers do not change content
